@@ -242,11 +242,13 @@ def gen_driver(model, config, plan, header_path):
     w = L.append
     w('#include <stdio.h>\n#include <string.h>\n#include "%s"\n' % header_path)
     w("static uint8_t BUF[128];")
-    w("struct inst { uint64_t id; int drops; };")
-    w("static struct inst INST[%d];" % max(1, plan["insts"]))
-    w('static void inst_drop(void *p) { ((struct inst *)p)->drops++; }')
     w("struct arcin { long count; uint64_t id; };")
     w("static struct arcin ARCS[%d];" % max(1, plan["arcs"]))
+    # (an instance's destructor is library code: the context that keeps the library loaded must
+    # still be held when it runs)
+    w("struct inst { uint64_t id; int drops; int arc; };")
+    w("static struct inst INST[%d];" % max(1, plan["insts"]))
+    w('static void inst_drop(void *p) { struct inst *i = (struct inst *)p; i->drops++; if (i->arc > 0 && ARCS[i->arc - 1].count <= 0) printf("INSTANCE inst=%llu destroyed after the LIBRARY was released\\n", (unsigned long long)i->id); }')
     w("static const void *arc_clone(const void *p) { ((struct arcin *)p)->count++; return p; }")
     w("static void arc_drop(const void *p) { ((struct arcin *)p)->count--; }")
     w("static bool cb_zero(void *c, %s v) { (void)c; (void)v; return 0; }" % cbty)
@@ -330,6 +332,8 @@ def gen_driver(model, config, plan, header_path):
                 w("    o%d.container.instance = &INST[%d];" % (on, st["inst"]))
             if o["ctx"] == "CArc_c_void":
                 w("    o%d.container.context.instance = &ARCS[%d]; o%d.container.context.clone_fn = arc_clone; o%d.container.context.drop_fn = arc_drop; ARCS[%d].count++;" % (on, st["ctx"], on, on, st["ctx"]))
+                if o["cont"] == "Box":
+                    w("    INST[%d].arc = %d;" % (st["inst"], st["ctx"] + 1))
             elif o["ctx"] != "NoContext":
                 w("    o%d.container.context.tag = %dull; o%d.container.context.handle = BUF;" % (on, st["ctx"], on))
             w('    printf("CREATE o%d\\n"); state();' % on)
@@ -452,6 +456,10 @@ def expected_log(model, config, plan):
 def classify(exp, got):
     """First difference between the expected and the observed log."""
     n = min(len(exp), len(got))
+    for i, g in enumerate(got):
+        if g.startswith("INSTANCE "):
+            ctx = [l for l in got[:i] if l.startswith("CALL") or l.startswith("DROP")]
+            return {"class": "wrap.context_released_before_instance", "site": (ctx[-1] if ctx else "start"), "msg": "line %d: `%s` (the context that keeps the instance's code loaded was given back before the instance's destructor ran)" % (i, g)}
     for i in range(n):
         if exp[i] != got[i]:
             e, g = exp[i], got[i]
@@ -614,11 +622,11 @@ def gen_driver_cpp(model, plan, header_path):
     w = L.append
     w('#include <cstdio>\n#include <cstring>\n#include <utility>\n#include "%s"\n' % header_path)
     w("static uint8_t BUF[128];")
-    w("struct inst { uint64_t id; int drops; };")
-    w("static inst INST[%d];" % max(1, plan["insts"]))
-    w("static void inst_drop(void *p) { ((inst *)p)->drops++; }")
     w("struct arcin { long count; uint64_t id; };")
     w("static arcin ARCS[%d];" % max(1, plan["arcs"]))
+    w("struct inst { uint64_t id; int drops; int arc; };")
+    w("static inst INST[%d];" % max(1, plan["insts"]))
+    w('static void inst_drop(void *p) { inst *i = (inst *)p; i->drops++; if (i->arc > 0 && ARCS[i->arc - 1].count <= 0) printf("INSTANCE inst=%llu destroyed after the LIBRARY was released\\n", (unsigned long long)i->id); }')
     w("static const void *arc_clone(const void *p) { ((arcin *)p)->count++; return p; }")
     w("static void arc_drop(const void *p) { ((arcin *)p)->count--; }")
     w("static bool cb_zero(void *c, %s v) { (void)c; (void)v; return 0; }" % cbty)
@@ -706,6 +714,8 @@ def gen_driver_cpp(model, plan, header_path):
                 w("    o%d->container.instance = &INST[%d];" % (on, st["inst"]))
             if o["ctx"] == "CArc_c_void":
                 w("    o%d->container.context.instance = &ARCS[%d]; o%d->container.context.clone_fn = arc_clone; o%d->container.context.drop_fn = arc_drop; ARCS[%d].count++;" % (on, st["ctx"], on, on, st["ctx"]))
+                if o["cont"] == "Box":
+                    w("    INST[%d].arc = %d;" % (st["inst"], st["ctx"] + 1))
             w('    printf("CREATE o%d\\n"); state();' % on)
         elif st["op"] == "drop":
             w('    printf("DROP o%d\\n");' % st["obj"])
